@@ -11,6 +11,7 @@ import GoNfsd.Lemmas.Lookup
 import GoNfsd.Lemmas.BlockMap
 import GoNfsd.Lemmas.Names
 import GoNfsd.Lemmas.Rename
+import GoNfsd.Lemmas.BlockTree
 
 namespace GoNfsd.Props.C02
 open GoNfsd.Model.Fs GoNfsd.Gen.Consts
@@ -196,5 +197,61 @@ theorem written_block_is_mapped (s : GoNfsd.Model.BlockMap.S) (blks : List Nat) 
     GoNfsd.Model.BlockMap.lookup (GoNfsd.Model.BlockMap.bmap s blks bn).1.st (GoNfsd.Model.BlockMap.bmap s blks bn).2.1 bn =
       (GoNfsd.Model.BlockMap.bmap s blks bn).2.2.1 :=
   GoNfsd.Model.BlockMap.bmap_maps s blks bn hl hbn hok
+
+/-- The same for EVERY file block the block map can address (direct, single- and double-indirect
+    range), on a well-formed pointer tree (`WFB`: no block pointed to twice; what the allocator
+    will hand out is distinct, unused and zero — observed on the real file and allocator by the
+    `blockmap` driver): the block `bmap` returns for `bn` is the block the map then has for `bn`. -/
+theorem written_block_is_mapped_in_every_range (s : GoNfsd.Model.BlockMap.S) (blks : List Nat) (bn : Nat)
+    (h : GoNfsd.Model.BlockMap.WFB s blks) (hbn : bn < NDIRECT + NBLKBLK + NBLKBLK * NBLKBLK)
+    (hok : (GoNfsd.Model.BlockMap.bmap s blks bn).2.2.1 ≠ 0) :
+    GoNfsd.Model.BlockMap.lookup (GoNfsd.Model.BlockMap.bmap s blks bn).1.st (GoNfsd.Model.BlockMap.bmap s blks bn).2.1 bn =
+      (GoNfsd.Model.BlockMap.bmap s blks bn).2.2.1 := by
+  rw [GoNfsd.Model.BlockMap.lookup_eq_ptr]
+  exact (GoNfsd.Model.BlockMap.bmap_ok s blks bn h hbn).hit hok
+
+theorem posOf_valid (bn : Nat) (hbn : bn < NDIRECT + NBLKBLK + NBLKBLK * NBLKBLK) :
+    (GoNfsd.Model.BlockMap.posOf bn).valid ∧ (GoNfsd.Model.BlockMap.posOf bn).isData := by
+  unfold GoNfsd.Model.BlockMap.posOf
+  by_cases h1 : bn < NDIRECT
+  · simp only [h1, if_true]; exact ⟨h1, trivial⟩
+  · by_cases h2 : bn - NDIRECT < NBLKBLK
+    · simp only [h1, h2, if_true, if_false]; exact ⟨h2, trivial⟩
+    · simp only [h1, h2, if_false]
+      refine ⟨⟨?_, ?_⟩, trivial⟩
+      · simp only [NDIRECT, NBLKBLK] at *; omega
+      · simp only [NBLKBLK]; omega
+
+/-- the file block a data position serves -/
+def bnOf : GoNfsd.Model.BlockMap.Pos → Nat
+  | .dir i => i
+  | .ileaf i => NDIRECT + i
+  | .dleaf j i => NDIRECT + NBLKBLK + (NBLKBLK * j + i)
+  | _ => 0
+
+theorem bnOf_posOf (bn : Nat) : bnOf (GoNfsd.Model.BlockMap.posOf bn) = bn := by
+  unfold GoNfsd.Model.BlockMap.posOf
+  by_cases h1 : bn < NDIRECT
+  · simp only [h1, if_true, bnOf]
+  · by_cases h2 : bn - NDIRECT < NBLKBLK
+    · simp only [h1, h2, if_true, if_false, bnOf]; omega
+    · simp only [h1, h2, if_false, bnOf]
+      have := Nat.div_add_mod (bn - NDIRECT - NBLKBLK) NBLKBLK
+      omega
+
+theorem posOf_inj (a b : Nat) (h : GoNfsd.Model.BlockMap.posOf a = GoNfsd.Model.BlockMap.posOf b) : a = b := by
+  rw [← bnOf_posOf a, ← bnOf_posOf b, h]
+
+/-- A WRITE to one block leaves every other block of the file where it is: mapping file block
+    `bn` (allocating the data block and whatever index blocks are missing) changes the disk block
+    of NO other file block — mapped blocks stay, holes stay holes — whether or not it succeeds. -/
+theorem mapping_one_block_moves_no_other (s : GoNfsd.Model.BlockMap.S) (blks : List Nat) (bn bn' : Nat)
+    (h : GoNfsd.Model.BlockMap.WFB s blks) (hbn : bn < NDIRECT + NBLKBLK + NBLKBLK * NBLKBLK)
+    (hbn' : bn' < NDIRECT + NBLKBLK + NBLKBLK * NBLKBLK) (hne : bn' ≠ bn) :
+    GoNfsd.Model.BlockMap.lookup (GoNfsd.Model.BlockMap.bmap s blks bn).1.st (GoNfsd.Model.BlockMap.bmap s blks bn).2.1 bn' =
+      GoNfsd.Model.BlockMap.lookup s.st blks bn' := by
+  rw [GoNfsd.Model.BlockMap.lookup_eq_ptr, GoNfsd.Model.BlockMap.lookup_eq_ptr]
+  obtain ⟨hv, hd⟩ := posOf_valid bn' hbn'
+  exact (GoNfsd.Model.BlockMap.bmap_ok s blks bn h hbn).frame _ hv hd (fun he => hne (posOf_inj _ _ he))
 
 end GoNfsd.Props.C02
